@@ -160,9 +160,12 @@ def k_stamp_history(ctx, seed):
     t = T(d, m) if r.random() < 0.5 else T.unpack(R.encode(d, m))
     trail = []
     for step in range(hist_len(r, 2, 9)):
-        op = r.choice(("pack", "read_from_raw", "add", "views", "pack"))
+        op = r.choice(("pack", "read_from_raw", "read_from_raw_same_day", "add", "views", "pack"))
         trail.append(op)
-        if op == "read_from_raw":
+        if op == "read_from_raw_same_day":
+            m = r.randrange(MS)
+            t.read_from_raw(R.encode(d, m))
+        elif op == "read_from_raw":
             d, m = r.getrandbits(16), r.randrange(MS)
             t.read_from_raw(R.encode(d, m) + r.randbytes(r.choice((0, 0, 3))))
         elif op == "add":
